@@ -204,6 +204,9 @@ func TestCrashConform(t *testing.T) {
 func conformOne(in input, b []step, ns bool, be string, seed int64) (int, *vh.Divergence) {
 	plain := in.Plain && !hasPrune(b)
 	w, err := newWorld(in.Consts, seed, ns, be, plain)
+	if errors.Is(err, errOnRealCode) {
+		return 0, &vh.Divergence{Key: "prune-fails-on-valid-chain", What: err.Error()}
+	}
 	if err != nil {
 		panic(fmt.Sprintf("crash engine: cannot build the initial world: %v", err))
 	}
@@ -531,6 +534,10 @@ func (e *enumRun) check(w *world, phase, faultOp, mode string, fi, k int, keep b
 func (e *enumRun) newWorld() *world {
 	plain := e.in.Plain && !hasPrune(e.b)
 	w, err := newWorld(e.in.Consts, e.seed, e.ns, e.be, plain)
+	if errors.Is(err, errOnRealCode) {
+		e.report("prune-fails-on-valid-chain", err.Error(), -1, 0, "")
+		return nil
+	}
 	if err != nil {
 		panic(fmt.Sprintf("crash engine: cannot build the initial world: %v", err))
 	}
@@ -542,6 +549,9 @@ func (e *enumRun) newWorld() *world {
 // them with the specification's and evaluates the monitors at the end.
 func (e *enumRun) dry() ([]int, bool) {
 	w := e.newWorld()
+	if w == nil {
+		return nil, false
+	}
 	defer w.close()
 	cnt := make([]int, len(e.ops))
 	for i, op := range e.ops {
@@ -564,6 +574,9 @@ func (e *enumRun) dry() ([]int, bool) {
 
 func (e *enumRun) trial(fi, k int, mode faultkv.Mode) {
 	w := e.newWorld()
+	if w == nil {
+		return
+	}
 	defer w.close()
 	bb := e.in.batchBytes()
 	ms := map[faultkv.Mode]string{faultkv.FailAt: "fail", faultkv.CrashAfter: "crash"}[mode]
@@ -670,8 +683,13 @@ func TestCrashProbe(t *testing.T) {
 	defer machinery(out)
 	seed := vh.Seed()
 	gen := consts{MaxH: 5, MaxVer: 3, InitH: 2, Boundary: 99, Genesis: true}
+	var realErr error
 	mustWorld := func(c consts) *world {
 		w, err := newWorld(c, seed, false, "memory", false)
+		if errors.Is(err, errOnRealCode) {
+			realErr = err
+			return nil
+		}
 		if err != nil {
 			panic(err)
 		}
@@ -720,6 +738,10 @@ func TestCrashProbe(t *testing.T) {
 	{
 		b := consts{MaxH: 4, MaxVer: 3, InitH: 2, Boundary: 2, Genesis: false}
 		w := mustWorld(b)
+		if w == nil {
+			out.Diverge(vh.Divergence{Key: "prune-fails-on-valid-chain", What: realErr.Error(), Input: input{}})
+			return
+		}
 		w.apply(eop{name: "query"}, 1, faultkv.Off, 0)
 		w.revert(faultkv.Off, 0) // 8192
 		w.revert(faultkv.Off, 0) // 8191: back into window 0
